@@ -377,7 +377,8 @@ def _granularity(e: ast.AST) -> str:
 
 def rounding(ctx: Ctx, rule: str) -> None:
     f = ctx.func(f"{REDIS_UTILS}.wait_timestamp")
-    rets = [n for n in ast.walk(f.node) if isinstance(n, ast.Return) and n.value is not None and not C.is_const(n.value, None)]
+    # returns as the lowered graph sees them: `return a if c else b` is one return per arm
+    rets = [n.ast for n in ctx.cfg(f).nodes if n.kind == "return" and isinstance(n.ast, ast.Return) and n.ast.value is not None and not C.is_const(n.ast.value, None)]
     ctx.floor(rule, len(rets), 1, "non-None returns of redis wait_timestamp")
     for r in rets:
         direction, gran = rounding_of(r.value)
@@ -386,7 +387,7 @@ def rounding(ctx: Ctx, rule: str) -> None:
                   f"redis wait_timestamp converts the due time with {unparse(r.value)} (rounds {direction} at 1 {gran or 's'}): a message due at "
                   "x.9 s gets score x and is deliverable up to one second early", node=r, instance=f"redis score rounding: {unparse(r.value)[:50]}")
     f = ctx.func(f"{REDIS_UTILS}.unix_time")
-    rets = [n for n in ast.walk(f.node) if isinstance(n, ast.Return) and n.value is not None]
+    rets = [n.ast for n in ctx.cfg(f).nodes if n.kind == "return" and isinstance(n.ast, ast.Return) and n.ast.value is not None]
     ctx.floor(rule, len(rets), 1, "returns of redis unix_time")
     for r in rets:
         direction, gran = rounding_of(r.value)
@@ -407,7 +408,17 @@ def rounding(ctx: Ctx, rule: str) -> None:
     dd = [(fn_, x) for fn_, x in C.deep_defs(ctx, f, exp) if isinstance(x, (ast.Call, ast.BinOp))]
     owner_of = {id(x): fn_ for fn_, x in dd}
     defs = [x for _, x in dd]
-    conv = [d for d in defs if rounding_of(d)[0] != "exact"]
+    conv = []
+    for d in defs:
+        if rounding_of(d)[0] != "exact":
+            conv.append(d)
+        else:
+            # a conversion buried in a larger expression: `int(x.total_seconds()) * 1000` rounds at one SECOND, whatever happens to the integer afterwards
+            inner = [x for x in ast.walk(d) if x is not d and isinstance(x, (ast.Call, ast.BinOp)) and rounding_of(x)[0] != "exact" and not (isinstance(x, ast.Call) and (dotted(x.func) or "") == "str")]
+            for x in inner:
+                if not any(x is y or any(x is z for z in ast.walk(y)) for y in conv):
+                    conv.append(x)
+                    owner_of[id(x)] = owner_of.get(id(d), f)
     from .delay import _component_reads
 
     if not any(comps & {"seconds", "microseconds"} for fn_ in [f] + C.helper_callees(ctx, f) for comps in _component_reads(fn_.node).values()):  # a component-wise conversion is judged by whole_duration_rule
@@ -452,8 +463,14 @@ def compare(ctx: Ctx, rule: str) -> None:
     ctx.require(bool(tvars), f"{f.qualname}: due-time loop variable not recognised")
     nows = [nm for nm in {x.id for x in ast.walk(f.node) if isinstance(x, ast.Name)} if any(
         isinstance(d, ast.Call) and (dotted(d.func) or "").endswith("datetime.now") and not d.args for d in C.local_defs(f, nm))]
-    ctx.check(len(nows) >= 1, rule, f, "in-memory due test compares with datetime.now()", "current time",
-              "__update_delayed does not compare due times with a plain datetime.now()", instance="in-memory now")
+    clock_reads = [c for c in ast.walk(f.node) if isinstance(c, ast.Call) and (dotted(c.func) or "").endswith("datetime.now")]
+    ctx.check(len(clock_reads) == 1, rule, f, "in-memory refresh reads the clock once", "one `now` for selecting, promoting and removing",
+              f"__update_delayed reads the clock {len(clock_reads)} times: entries are selected for promotion and for removal against different instants, so a bucket that becomes due "
+              "between two readings is removed without having been promoted (its messages vanish) or promoted twice", instance="in-memory refresh: one clock read")
+    if not ctx.check(len(nows) >= 1, rule, f, "in-memory due test compares with datetime.now()", "current time",
+                     "__update_delayed does not compare due times with a plain datetime.now() (the instant is shifted or not read into a local once): messages are promoted before "
+                     "their due time or against a moving clock", instance="in-memory now"):
+        return
     filt = [c for comp, gen in comps for c in gen.ifs]  # comprehension filters select the entries that are moved
     for ordering, want in (("gt", False), ("lt", True)):
         env = {}
